@@ -151,9 +151,12 @@ func (s *Server) Session(strm signaling.SRPCSignaling_SessionStream) error {
 		prevRemotePeer.recv, prevRemotePeer.recvSent = nil, nil
 	}
 
+	// Take the wait channel before broadcasting so that our own registration
+	// wakes the write loop below: the first iteration must run even if nobody
+	// else broadcasts, to announce an already-open session to this peer.
+	waitCh := sess.getWaitCh()
 	sess.seqno++
 	sess.broadcast()
-	waitCh := sess.getWaitCh()
 
 	s.mtx.Unlock()
 
